@@ -201,8 +201,8 @@ pub fn cli_crypt(ctx: &mut Ctx) {
             if r.crashed() || r.hung() { ctx.violation("C07", "`pna experimental chmod --keep-solid` crashed or hung", json!({"case":attrs,"run":r.brief()})); }
             if r.ok() { ctx.count("stage:keep-solid-rewrite"); scan(ctx, "keep-solid-rewrite", "k", &files0, true, &mut seen, &mut dup_reported); } else { ctx.count("keep-solid-rewrite-failed"); }
         }
-        // (every entry written again derives its own key with the default argon2id cost: two such cases in the quick tier)
-        if solid && !split && (ctx.thorough || unsolid_runs < 2) {
+        // (every entry written again derives its own key with the default argon2id cost: five such cases in the quick tier)
+        if solid && !split && (ctx.thorough || unsolid_runs < 5) {
             unsolid_runs += 1;
             // the same archive rewritten with --unsolid: the entries leave the block's encrypted stream and must not
             // come out in the clear (names are visible in a non-solid archive by design)
@@ -255,8 +255,10 @@ pub fn cli_crypt(ctx: &mut Ctx) {
             let c0 = bytes(&mut rng, 150);
             std::fs::write(sbx.path(&n0), &c0).unwrap();
             files[0].1 = c0;
-            let mut a: Vec<String> = vec!["--quiet".into(), "experimental".into(), "update".into(), "--unstable".into(), "a.pna".into(), "-r".into(), comp.into(), cipher[0].into(), cipher[1].into()];
-            a.extend(kdf.clone()); a.extend(pw_args(chan_w, &pw_w, "pw_w")); a.push("t".into());
+            // with the codec/cipher/KDF named again, or with the password alone (the defaults apply)
+            let mut a: Vec<String> = vec!["--quiet".into(), "experimental".into(), "update".into(), "--unstable".into(), "a.pna".into(), "-r".into()];
+            if case % 2 == 0 { a.extend([comp.to_string(), cipher[0].to_string(), cipher[1].to_string()]); a.extend(kdf.clone()); } else { ctx.count("update:password-alone"); }
+            a.extend(pw_args(chan_w, &pw_w, "pw_w")); a.push("t".into());
             let av: Vec<&str> = a.iter().map(|s| s.as_str()).collect();
             let r = run_pna(&sbx, &sbx.root, &av, None, 120, &[]);
             if r.crashed() || r.hung() { ctx.violation("C07", "`pna experimental update` crashed or hung", json!({"case":attrs,"run":r.brief()})); }
